@@ -92,9 +92,9 @@ def run_worker(case):
         # the stream was cut by a failing read: nothing is demanded about how far the worker got, except that a chunked body whose
         # terminating chunk never arrived is not handed to the application as if it were complete
         for c, r in zip(app.calls, refs):
-            if case["read_input"] == "all" and r.framing == "chunked" and c["raised"] is None and c["input"] is not None \
+            if case["read_input"] == "all" and c["raised"] is None and c["input"] is not None \
                     and c["input"] != r.body and sock.recv_errors:
-                vio.append(Violation("body-exact", "C01/worker:truncated-chunked-body-handed-over-as-complete:" + kind,
+                vio.append(Violation("body-exact", "C01/worker:truncated-%s-body-handed-over-as-complete:%s" % ("chunked" if r.framing == "chunked" else "sized", kind),
                                      observed={"got_len": len(c["input"]), "sent_len": len(r.body), "fault": rf}, expected="an error from wsgi.input"))
                 break
         return Outcome(vio, True, ["engine:W", "kind:" + kind, "read:" + case["read_input"], "recv-fault:%s" % bool(sock.recv_errors)],
@@ -197,6 +197,18 @@ def _pipelines():
 
 def extra_cases(tier, seed, shard, nshards):
     n = 0
+    # worker level: the read that would deliver the second half of a body fails (reset / timed out / would block / interrupted); the rest
+    # of the body and a follower are still in the socket: half a body is never handed over as a whole one
+    body = ("0123456789abcdef" * 40)[:600]
+    for kind in ("sync", "gthread", "gevent", "eventlet"):
+        for fr, enc in (("cl", "Content-Length: 600\r\n\r\n" + body),
+                        ("chunked", "Transfer-Encoding: chunked\r\n\r\n12c\r\n" + body[:300] + "\r\n12c\r\n" + body[300:] + "\r\n0\r\n\r\n")):
+            for eno in (104, 110, 11, 4):
+                n += 1
+                if n % nshards == shard:
+                    head = "POST /one HTTP/1.1\r\nHost: a\r\n"
+                    yield {"engine": "W", "kind": kind, "stream": head + enc + "GET /two HTTP/1.1\r\nHost: a\r\n\r\n", "read_input": "all",
+                           "cuts": [len(head) + 200], "recv_fault": [1, eno]}
     for s in _pipelines():
         end_first = s.index("/two") - 5
         start = s.index("\r\n0") if len(s) < 2000 else s.index("\r\n0\r\n") if "\r\n0\r\n" in s else s.index("\r\n0;")
